@@ -1,5 +1,6 @@
 """C09 -- connecting always concludes; a lost connection fails pending work once (DESIGN.md section 3, C09)."""
 import itertools
+import os
 
 from hypothesis import strategies as st
 
@@ -37,14 +38,15 @@ ASSUMPTIONS = ['proxies are kept strongly referenced by the harness (the registr
 
 GUID = b'0123456789abcdef0123456789abcdef'
 KINDS = {'unix': 'unix:path=/run/verif-%d', 'tcp': 'tcp:host=h%d,port=%d', 'nonce': 'nonce-tcp:host=n%d,port=%d,noncefile=/n',
-         'unix-guid': 'unix:path=/run/verif-%d,guid=0123456789abcdef0123456789abcdef'}
+         'unix-guid': 'unix:path=/run/verif-%d,guid=0123456789abcdef0123456789abcdef',
+         'unix-abstract': 'unix:abstract=verif-%d'}
 SKIPPED = ['launchd:env=DBUS_LAUNCHD_SESSION_BUS_SOCKET', 'autolaunch:', 'foo:bar=1']      # kinds the client cannot use
 
 
 def _address(entries, decorate=False):
     out = []
     for i, k in enumerate(entries):
-        if k in ('unix', 'unix-guid'):
+        if k in ('unix', 'unix-guid', 'unix-abstract'):
             out.append(KINDS[k] % i)
         else:
             out.append(KINDS[k] % (i, 1000 + i))
@@ -88,10 +90,23 @@ def run_connect(case):
         entries = case['entries']
         reach = case['reachable']
         results = []
+        addr = _address(entries, case.get('decorate', False))
+        via = case.get('via', 'explicit')
+        envkey = {'session': 'DBUS_SESSION_BUS_ADDRESS', 'system': 'DBUS_SYSTEM_BUS_ADDRESS'}.get(via)
+        saved_env = os.environ.get(envkey) if envkey else None
         try:
-            d = C.connect(reactor, _address(entries, case.get('decorate', False)))
+            if envkey:
+                # the documented shorthands: the address list comes from the environment
+                os.environ[envkey] = addr
+            d = C.connect(reactor, addr if not envkey else via)
         except Exception as e:
             return [Disc(exc_key(e, 'connect.raises'), exc_detail(e))]
+        finally:
+            if envkey:
+                if saved_env is None:
+                    os.environ.pop(envkey, None)
+                else:
+                    os.environ[envkey] = saved_env
         if not hasattr(d, 'addBoth'):
             return [Disc('connect.returns-no-deferred', 'connect() returned %r' % (d,))]
         d.addBoth(results.append)
@@ -125,7 +140,8 @@ def run_connect(case):
         # expected order of attempts: listed order up to and including the first reachable one
         first = reach.index(True) if True in reach else None
         want_n = len(entries) if first is None else first + 1
-        want = [('unix', '/run/verif-%d' % i) if entries[i].startswith('unix') else ('tcp', ('h%d' if entries[i] == 'tcp' else 'n%d') % i)
+        want = [('unix', ('\0verif-%d' if entries[i] == 'unix-abstract' else '/run/verif-%d') % i) if entries[i].startswith('unix')
+                else ('tcp', ('h%d' if entries[i] == 'tcp' else 'n%d') % i)
                 for i in range(want_n)]
         if attempts != want:
             out.append(Disc('connect.endpoint-order', 'attempted %r, expected %r' % (attempts, want)))
@@ -228,7 +244,7 @@ def _total(kind):
 
 def enum_connect(tier):
     lists = [['unix'], ['tcp'], ['nonce'], ['unix', 'tcp'], ['tcp', 'unix', 'nonce'], ['nonce', 'tcp', 'unix', 'tcp'],
-             ['unix-guid', 'tcp']]
+             ['unix-guid', 'tcp'], ['unix-abstract', 'unix']]
     if tier == 'thorough':
         lists += [list(p) for p in itertools.product(['unix', 'tcp', 'nonce'], repeat=3)]
     seen = set()
@@ -248,6 +264,8 @@ def enum_connect(tier):
             key = (kind, tuple(entries[:first + 1]))
             yield {'entries': entries, 'reachable': reach, 'variant': 'ideal', 'crash': None, 'total': total}
             yield {'entries': entries, 'reachable': reach, 'variant': 'ideal', 'crash': None, 'total': total, 'decorate': True}
+            for via in ('session', 'system'):
+                yield {'entries': entries, 'reachable': reach, 'variant': 'ideal', 'crash': None, 'total': total, 'via': via}
             if key in seen:
                 continue
             seen.add(key)
